@@ -463,5 +463,5 @@ def run_label_after_validation(chk):
                               "label (and an orphan node) behind and shifts every later label id" %
                               (" ".join(fn.text(r).split())[:50], " ".join(fn.text(st).split())[:50] if st else "", fn.line_of(st) if st else 0),
                        key="labelbeforevalid|%s" % fn.name.replace("asmjit::", ""))
-    chk.floor(R + ":functions", nfn, 4)
+    chk.floor(R + ":functions", nfn, 2)      # (a refactoring that shares the registration in a helper lowers this legitimately: R9-3)
     chk.floor(R + ":returns", n, 1)
